@@ -214,7 +214,7 @@ func (p *Prog) gateRules(r *Report, a *gateAnchors, wantC01, wantC03 bool) {
 				}
 			}
 			sawExists := false
-			eachInstr(nb, false, func(_ *ssa.Function, i ssa.Instruction) {
+			eachInstr(nb, true, func(_ *ssa.Function, i ssa.Instruction) {
 				c, ok := i.(*ssa.Call)
 				if !ok || !isCallTo(c, "core.PathExists", "fs.PathExists", "fs.FileExists") {
 					return
@@ -520,7 +520,7 @@ func (p *Prog) xattrLayoutRule(r *Report, a *gateAnchors) {
 	// reader: field -> segment
 	wantSeg := map[string][]int64{"rule": {0, 1}, "config": {2}, "source": {3}, "secret": {4}}
 	seen := map[string]int{}
-	eachInstr(a.readX, false, func(_ *ssa.Function, i ssa.Instruction) {
+	eachInstrS(a.readX, func(_ *ssa.Function, i ssa.Instruction) {
 		st, ok := i.(*ssa.Store)
 		if !ok {
 			return
@@ -677,7 +677,7 @@ func checkC03(p *Prog, r *Report) {
 	rule := "E5.movehash-before-move"
 	mo := a.moveOutput
 	n := 0
-	eachInstr(mo, false, func(_ *ssa.Function, i ssa.Instruction) {
+	eachInstrS(mo, func(_ *ssa.Function, i ssa.Instruction) {
 		if isCallTo(i, "os.Rename", "fs.RecursiveCopy") {
 			n++
 			r.check(dominatedByCall(i, a.moveHash) != nil, rule, "MoveHash dominates "+calleeName(callCommon(i)), p.pos(i.Pos()), fnName(mo), "the memoised hash is re-keyed to the real output before the file is moved", "the output is moved into place without PathHasher.MoveHash having run: dependents read a stale memoised hash for the real output path (or rehash needlessly)")
@@ -942,7 +942,7 @@ func (p *Prog) sourceHashContentOnly(r *Report, a *gateAnchors) {
 func (p *Prog) outputExistenceAcceptsDirs(r *Report, a *gateAnchors) {
 	rule := "E9.output-exists-accepts-directories"
 	n := 0
-	eachInstr(a.needs, false, func(_ *ssa.Function, i ssa.Instruction) {
+	eachInstrS(a.needs, func(_ *ssa.Function, i ssa.Instruction) {
 		c, ok := i.(*ssa.Call)
 		if !ok || len(c.Call.Args) != 1 || typeString(c.Type()) != "bool" {
 			return
